@@ -159,6 +159,20 @@ func c07(p *core.Program, r *core.Report) {
 		}
 	}
 
+	// ---- rule 1c: numbers reach the JSON text through encoding/json or strconv's float formatting only
+	const r1c = "ordinates-not-converted"
+	r.Rule(r1c, "no function of package geojson converts a float64 to an integer type: an ordinate is written by encoding/json (or by strconv float formatting in the digit-limiting handler), whose text an RFC 8259 reader parses back to the same number - an integer fast path `strconv.AppendInt(buf, int64(f), 10)` overflows for whole ordinates of magnitude 2^63 and above, which are legitimate (zero count; the fixture keeps a function that must be reported)", 0)
+	{
+		nfn := 0
+		for _, fn := range pkgFuncs(p, rel) {
+			nfn++
+			for k, cv := range floatToIntConverts(fn) {
+				r.Bad(r1c, fmt.Sprintf("%s/convert#%d", short(fn), k+1), p.Pos(cv.Pos()), "a float64 is converted to "+cv.Type().String()+" in the GeoJSON codec: whole ordinates beyond the integer type's range are written as a different number")
+			}
+		}
+		r.Count("geojson_functions_scanned", nfn)
+	}
+
 	// ---- rule 2: layout guess and bbox tables
 	const r2 = "layout-guess-table"
 	r.Rule(r2, "CONSTEVAL: guessLayout0 evaluated with len(coords0) bound to n returns {0,1 -> error, 2 -> XY, 3 -> XYZ, 4 -> XYZM, 7 -> Layout(7)}; decodeBBox with len(bb) bound reaches NewBounds(XY) for 4, NewBounds(XYZ) for 6 and returns an error without building a box for every other length; encodeBBox with b.Layout() bound emits Min(0),Min(1),Max(0),Max(1) for XY/XYM and Min(0..2),Max(0..2) for XYZ/XYZM", 8)
